@@ -14,14 +14,14 @@ package utils
 
 //@ func GetBitsAsUint64
 //@ mode bv
-//@ requires len <= 64
+//@ requires[C14] len <= 64
 //@ requires[C07] pos <= 1<<62 && (len == 0 || pos+len <= 8*size(buff))
 //@ ensures[C14] forall(k, 0, 64, k < len ==> bitof(result, len-1-k) == bit(buff, pos+k))
 //@ ensures[C14] len == 64 || result>>len == 0
-//@ exports result == bits(buff, pos, len)
-//@ exports 0 <= result && result < pow2(len)
+//@ exports len <= 64 ==> result == bits(buff, pos, len)
+//@ exports len <= 64 ==> 0 <= result && result < pow2(len)
 //@ loop 1
-//@ split i-pos in 0..64
+//@ split[C14] i-pos in 0..64
 //@ invariant[C14,C07] pos <= i && i-pos <= len
 //@ invariant[C14] forall(k, 0, 64, k < i-pos ==> bitof(result, i-pos-1-k) == bit(buff, pos+k))
 //@ invariant[C14] i-pos == 64 || result>>(i-pos) == 0
@@ -55,3 +55,27 @@ package utils
 
 //@ func MSM
 //@ ensures[C20] result == isMSM(messageType)
+
+// GetNumberOfSignalCells is checked in the context of each caller (inline), where the
+// cell size is a constant.
+//@ func GetNumberOfSignalCells
+//@ inline
+//@ loop 1
+//@ invariant 0 <= i && (i <= cellsLeft || cellsLeft < 0) && len(cells) == i && fresh(cells) && pos == startPosition + i*bitsPerCell
+//@ decreases cellsLeft - i
+//@ loop 2
+//@ invariant len(cells) >= 0 && (len(cells) <= cellsLeft || cellsLeft < 0) && fresh(cells)
+//@ decreases len(cells)
+
+//@ func GetTitleAndComment
+//@ ensures[C07,C20] result != nil && len(result.Title) > 0
+
+//@ func GetConstellation
+//@ ensures[C20] (result == "GPS") == (messageType == 1074 || messageType == 1077)
+//@ ensures[C20] (result == "Glonass") == (messageType == 1084 || messageType == 1087)
+//@ ensures[C20] (result == "Galileo") == (messageType == 1094 || messageType == 1097)
+//@ ensures[C20] (result == "SBAS") == (messageType == 1104 || messageType == 1107)
+//@ ensures[C20] (result == "QZSS") == (messageType == 1114 || messageType == 1117)
+//@ ensures[C20] (result == "Beidou") == (messageType == 1124 || messageType == 1127)
+//@ ensures[C20] (result == "NavIC/IRNSS") == (messageType == 1134 || messageType == 1137)
+//@ ensures[C20] (result == "unknown constellation") == !isMSM(messageType)
